@@ -13,6 +13,7 @@ import NumbersModel.Drv.Refs
 import NumbersModel.Drv.DateFmt
 import NumbersModel.Drv.Duration
 import NumbersModel.Drv.NumFmt
+import NumbersModel.Drv.CustomFmt
 import NumbersModel.Drv.Grid
 import NumbersModel.Drv.Merge
 import NumbersModel.Drv.Cache
@@ -43,6 +44,7 @@ def dispatch (line : String) : String :=
     | "datefmt" :: rest => handleDateFmt rest
     | "dur" :: rest => handleDuration rest
     | "numfmt" :: rest => handleNumFmt rest
+    | "customfmt" :: rest => handleCustomFmt rest
     | "grid" :: rest => handleGrid rest
     | "merge" :: rest => handleMerge rest
     | "cache" :: rest => handleCache rest
